@@ -19,6 +19,9 @@ def make_cases(ctx, n_general, n_table, n_pal, n_multi):
     for _ in range(n_pal):
         img, fr, kind = pl.gen_palette_image(ctx.rng)
         cases.append((kind, img, fr))
+    for _ in range(max(20, n_table // 3)):
+        img, fr, kind = pl.gen_fast_lossless_image(ctx.rng)
+        cases.append((kind, img, fr))
     for _ in range(n_multi):
         img, fr = pl.gen_modular_image(ctx.rng, {"multi_group": True})
         cases.append(("multi-group", img, fr))
@@ -94,6 +97,7 @@ def run(ctx):
             vals.update(c[2][:64])
         ctx.case(line, nontrivial=len(vals) > 1)
         ctx.count("kind:" + kind)
+        ctx.count(f"entropy-mode:{r[1][0].get('ent', 0)}")
         ctx.count("bits:" + str(img["bits"]))
         ctx.count("buf:" + ("i16" if img["buf16"] else "i32"))
         if r[1][0]["num_groups"] > 1:
